@@ -163,7 +163,7 @@ def _case(draw, ctx):
             end = draw(st.lists(st.sampled_from(shared_ep), min_size=1, max_size=len(shared_ep), unique=True))
     tables = draw(st.lists(st.integers(0, (1 << 64) - 1), min_size=24, max_size=24))
     return {"c0": c0, "c1": c1, "start": start, "end": end, "tables": tables,
-            "as_list": draw(st.booleans()), "mode": mode}
+            "form": draw(st.sampled_from(["set", "set", "list", "tuple", "keys"])), "mode": mode}
 
 
 def strategy(ctx):
@@ -185,12 +185,14 @@ def check(case, ctx):
     if not comp:
         return {"nontrivial": False, "labels": ["skipped_no_shared_endpoint"]}
     kw = {}
+    form = case.get("form", "list" if case.get("as_list") else "set")
+    conv = {"list": list, "set": set, "tuple": tuple, "iter": lambda x: iter(list(x)), "keys": lambda x: dict.fromkeys(x).keys()}[form]
     if case["start"]:
-        kw["startpoints"] = list(case["start"]) if case.get("as_list") else set(case["start"])
+        kw["startpoints"] = conv(case["start"])
     if case["end"]:
-        kw["endpoints"] = list(case["end"]) if case.get("as_list") else set(case["end"])
+        kw["endpoints"] = conv(case["end"])
     snap0 = refsim.snapshot(c0)
-    m = need(lib(cg.tx.miter, c0, c1, **kw), "miter", f"miter(c0, c1, {kw})")
+    m = need(lib(cg.tx.miter, c0, c1, **kw), "miter", f"miter(c0, c1, startpoints={case['start']}, endpoints={case['end']}, as {form})")
     if refsim.snapshot(c0) != snap0:
         raise Violation("miter|mutates_argument", "miter modified c0")
     if m.inputs() != tied:
